@@ -475,6 +475,21 @@ def build(active_known=frozenset()):
 
         c.ensures("conj of [k v] binds k to v, leaves every other entry alone and keeps the metadata", post)
 
+    # conj of two elements one of which is nil: nil is skipped wherever it stands, the other element is still added
+    for nil_at, lbl in ((0, "nil, then a map entry"), (1, "a map entry, then nil")):
+        c = new(pm + "cons", lbl)
+        c.param("self", OBJ(PM)).param("elems", STAR(2)).param(f"elems{1 - nil_at}", OBJ(ME))
+        c.requires("one element is nil, the other a map entry",
+                   lambda a, nil_at=nil_at: z3.And(V.is_none(getattr(a, f"elems{nil_at}")), z3.Length(sview(a.pre, getattr(a, f"elems{1 - nil_at}"))) == 2))
+        c.raises()
+
+        def post2(a, nil_at=nil_at):
+            E = sview(a.pre, getattr(a, f"elems{1 - nil_at}"))
+            m, d, n_ = model_assoc(*mview(a.pre, a.self), E[0], E[1])
+            return z3.And(has_class(a.eng, a.result, PM), same_map(mview(a.post, a.result), (m, d, n_)), carries_meta(a))
+
+        c.ensures("a nil among the arguments of conj is skipped and the other elements are added all the same (before it and after it)", post2)
+
     # =================================================================================== TransientMap
     tm = "basilisp.lang.map:TransientMap."
 
@@ -929,6 +944,9 @@ for ks in keyseqs(2):
     chk("(persistent! (assoc! (transient m) %s))" % (kvs,), dict(m.to_transient().assoc_transient(*kvs).to_persistent()), want)
     chk("(conj m entries %s)" % (kvs,), dict(m.cons(*[vec.MapEntry.of(k, 10 + i) for i, k in enumerate(ks)])), want)
     chk("(conj m vectors %s)" % (kvs,), dict(m.cons(*[vec.v(k, 10 + i) for i, k in enumerate(ks)])), want)
+    chk("(conj m nil entries %s)" % (kvs,), dict(m.cons(None, *[vec.MapEntry.of(k, 10 + i) for i, k in enumerate(ks)])), want)
+    chk("(conj m entries %s nil)" % (kvs,), dict(m.cons(*([vec.MapEntry.of(k, 10 + i) for i, k in enumerate(ks)] + [None]))), want)
+    chk("(persistent! (conj! (transient m) nil %s nil))" % (kvs,), dict(m.to_transient().cons_transient(None, *([vec.v(k, 10 + i) for i, k in enumerate(ks)] + [None])).to_persistent()), want)
     chk("(persistent! (conj! (transient m) %s))" % (kvs,), dict(m.to_transient().cons_transient(*[vec.v(k, 10 + i) for i, k in enumerate(ks)]).to_persistent()), want)
     chk("source map after assoc %s" % (kvs,), dict(m), base)
     for k in (A, B, Z):
